@@ -193,6 +193,7 @@ impl Scenario for ImeSequences {
         let mut out = Vec::new();
         let mut event_pending = false;
         let mut clocks = 0u64;
+        let mut prev_ins: Option<Ins> = None;
         for (opi, op) in case.ops.iter().enumerate() {
             match op.k {
                 "w" => {
@@ -287,6 +288,23 @@ impl Scenario for ImeSequences {
                     if before.1 != 0 && oc == 2 {
                         ctx.cov.hit("probe.woke_into_handler");
                     }
+                    // consecutive-instruction pairs (EI;DI, EI;EI, EI;RETI, DI in the EI shadow, HALT entered while enable-pending ...)
+                    if let Some(p) = prev_ins {
+                        ctx.cov.mark("instruction_pairs", ins_code(p) << 8 | ins_code(info.ins));
+                        let name = match (p, info.ins) {
+                            (Ins::Ei, Ins::Di) => Some("probe.pair_ei_di"),
+                            (Ins::Ei, Ins::Ei) => Some("probe.pair_ei_ei"),
+                            (Ins::Ei, Ins::Reti) => Some("probe.pair_ei_reti"),
+                            (Ins::Ei, Ins::Halt) => Some("probe.pair_ei_halt"),
+                            (Ins::Ei, Ins::Stop) => Some("probe.pair_ei_stop"),
+                            (Ins::Di, Ins::Halt) => Some("probe.pair_di_halt"),
+                            _ => None,
+                        };
+                        if let Some(n) = name {
+                            ctx.cov.hit(n);
+                        }
+                    }
+                    prev_ins = Some(info.ins);
                     ctx.cov.mark("distinct", (before.0 as u64) << 20 | (before.1 as u64) << 16 | ins_code(info.ins) << 8 | (before.2 as u64) << 5 | (event_pending as u64) << 4 | oc);
                     event_pending = false;
                 }
